@@ -12,6 +12,7 @@ import (
 	"runtime"
 	"sort"
 	"sync"
+	"sync/atomic"
 	"time"
 
 	tss "github.com/IBM/TSS/types"
@@ -40,6 +41,10 @@ type sessResult struct {
 	Panics   []string
 	FromSeq  uint64 // event log position at session start
 	Returned map[uint16]bool
+	// QuietAtFirstReturn: how long the event log (transmissions, deliveries, hand-overs) had not grown and the network had been
+	// empty when the first call returned an error. A session that fails by deadline after seconds of complete silence did not fail
+	// because the machine was slow.
+	QuietAtFirstReturn time.Duration
 }
 
 type rcluster struct {
@@ -96,6 +101,25 @@ func (c *rcluster) run(sc sessCfg) sessResult {
 	var wg sync.WaitGroup
 	var mu sync.Mutex
 	start := time.Now()
+	// silence monitor
+	var lastGrowth int64 = time.Now().UnixNano()
+	var firstReturn int64
+	monStop := make(chan struct{})
+	go func() {
+		pos := c.logPos()
+		for {
+			select {
+			case <-monStop:
+				return
+			case <-time.After(25 * time.Millisecond):
+			}
+			if np := c.logPos(); np != pos || c.Net.Pending() != 0 || c.Net.Busy() {
+				pos = np
+				atomic.StoreInt64(&lastGrowth, time.Now().UnixNano())
+			}
+		}
+	}()
+	defer close(monStop)
 	for _, u := range sc.Callers {
 		u := u
 		s := c.Schemes[u]
@@ -123,6 +147,12 @@ func (c *rcluster) run(sc sessCfg) sessResult {
 			es := ""
 			if err != nil {
 				es = err.Error()
+			}
+			if err != nil && atomic.CompareAndSwapInt64(&firstReturn, 0, time.Now().UnixNano()) {
+				q := time.Duration(time.Now().UnixNano() - atomic.LoadInt64(&lastGrowth))
+				mu.Lock()
+				res.QuietAtFirstReturn = q
+				mu.Unlock()
 			}
 			c.Net.Record(simnet.Event{Kind: simnet.EvReturn, Node: u, Text: topic, Err: es, Data: out})
 			mu.Lock()
